@@ -552,6 +552,35 @@ func RunCrashScenario(sc *Scenario) (vd *Verdict) {
 			werr = server.NewGarbageCollector(r.H.Store, r.H.Env).Cleandeleted()
 			mgmt = true
 			r.Stats["gc_runs"]++
+		case "resetStore":
+			// DELETE /datasets: the store is wiped and comes back as a new store (new storage id); the hub is
+			// restarted on it. Whatever sits in the backup location belongs to the old store from now on
+			if err := r.H.Store.Delete(); err != nil {
+				fail(viol(sc.Property, "reset", "store-delete-failed", "%v", err), i)
+				return
+			}
+			if v := r.restart(); v != nil {
+				fail(v, i)
+				return
+			}
+			r.M = NewModel()
+			for _, d := range sc.Datasets {
+				if _, err := r.H.Dsm.CreateDataset(d, nil); err != nil {
+					fail(viol(sc.Property, "reset", "create-after-reset-failed", "%v", err), i)
+					return
+				}
+				r.M.Create(d)
+			}
+			if r.backupDir != "" && r.atBackup != nil {
+				r.locationForeign = true
+			}
+			r.atBackup = nil
+			r.backupMgr = nil
+			r.grabbed = map[string]*grabbedDS{}
+			r.fp = FilesFingerprint(r.H.Dir)
+			r.walEpochStart = i + 1
+			r.Stats["store_resets"]++
+			mgmt = true
 		case "restart":
 			if v := r.restart(); v != nil {
 				fail(v, i)
